@@ -12,6 +12,7 @@ import YtkProofs.Overlay
 import YtkProofs.OverlayRel
 import YtkProofs.MergeRel
 import YtkProofs.OverlayValid
+import YtkProofs.OverlaySafe
 import YtkModel.Codec
 
 namespace Ytk.C06
@@ -236,6 +237,25 @@ theorem search_rel_layerwise (f : Scalar → Bool) (s : Overlay) (out : List (St
 theorem search_rel_domain (c : AMap Node) (hv : (Node.cont c).Valid) (hs : (Node.cont c).SafeKeys) :
     PathsFunctional c := pathsFunctional_of_valid c hv hs
 
+/-- …and on every state the property quantifies over: after any history whose payloads are
+    valid documents (`Op.PayloadValid`) and which stays in the path-safe domain (`Op.Safe`: path
+    components with path-safe key parts, payload keys path-safe) every layer is valid with
+    path-safe keys, hence has one leaf per flattened path -/
+theorem layers_domain_run (ops : List Op) (s : Overlay) (hv : ∀ op ∈ ops, op.PayloadValid)
+    (ho : ∀ op ∈ ops, op.Safe) (h : run [] ops = .ok s) :
+    ∀ q ∈ s, (Node.cont q.2).Valid ∧ (Node.cont q.2).SafeKeys ∧ PathsFunctional q.2 := by
+  intro q hq
+  have h1 := run_valid ops (fun _ hq => by cases hq) hv h q hq
+  have h2 := run_safe ops (fun _ hq => by cases hq) hv ho h q hq
+  exact ⟨h1, h2, pathsFunctional_of_valid q.2 h1 h2⟩
+
+/-- (c) without side condition on reachable states -/
+theorem search_rel_run (f : Scalar → Bool) (ops : List Op) (s : Overlay) (hv : ∀ op ∈ ops, op.PayloadValid)
+    (ho : ∀ op ∈ ops, op.Safe) (h : run [] ops = .ok s) (out : List (String × String)) (hr : SearchRel f s out) :
+    LayerwisePerm (fun q => (Ytk.search f q.2).map fun path => (q.1, path)) s out ∧
+      out.Perm (Overlay.search f s) :=
+  search_rel_layerwise f s out (fun q hq => (layers_domain_run ops s hv ho h q hq).2.2) hr
+
 /-- the executable model is one of the relational runs -/
 theorem search_is_rel (f : Scalar → Bool) (s : Overlay) : SearchRel f s (Overlay.search f s) :=
   searchRel_self f s
@@ -448,5 +468,17 @@ theorem nonvacuous_merged_rel :
           (by decide +kernel)
           (.both_eq (n := i "1") (x := coalesce (i "1") Node.null) (a₂ := exMerged) (by decide +kernel)
             (.other (by decide) (by decide)) (by decide +kernel) (.nil_eq rfl)))
+
+/-- the example history with its first payload written as a well-formed (key-sorted) map -/
+def exOpsDom : List Op :=
+  .put "top" "a" (.cont [("l", .list []), ("x", .cont [])]) :: exOps.tail
+
+/-- …lies in the domain of `layers_domain_run` / `search_rel_run` / `merged_order_independent_run`
+    and reaches the same three-layer state -/
+theorem nonvacuous_domain : (∀ op ∈ exOpsDom, op.PayloadValid ∧ op.Safe) ∧ run [] exOpsDom = .ok exState := by
+  have h : exOpsDom.all Op.okB = true := by decide +kernel
+  refine ⟨?_, by decide +kernel⟩
+  intro op hop
+  exact Op.okB_sound (List.all_eq_true.mp h op hop)
 
 end Ytk.C06
